@@ -321,7 +321,7 @@ func c20nilQueries() string {
 }
 
 func c20(c *hx.Ctx) int {
-	depth := 4
+	depth := 5
 	if !c.Quick() {
 		depth = 6
 	}
